@@ -21,6 +21,7 @@ func main() {
 	commands["addr"] = cmdAddr
 	commands["idl"] = cmdIdl
 	commands["gen"] = cmdGen
+	commands["gen08"] = cmdGen08
 	commands["acthelper"] = cmdActHelper
 	if len(os.Args) < 2 {
 		fmt.Fprintln(os.Stderr, "usage: vdriver <command> [flags]")
